@@ -94,10 +94,16 @@ def check_dispatch(ctx):
             continue
         # the judge: the routine interpreted on synthetic hierarchies
         from .. import dispatch
-        wit, n_cases = dispatch.judge(
-            model.inlined(fn) if False else fn,
-            cached=owner.name == "CachedMapper", skip_own=name == "rec_fallback",
-            module_tree=owner.module.tree, class_node=owner.node)
+        try:
+            wit, n_cases = dispatch.judge(
+                fn, cached=owner.name == "CachedMapper",
+                skip_own=name == "rec_fallback",
+                module_tree=owner.module.tree, class_node=owner.node)
+        except AnalysisError as e:
+            # the judge cannot read this tree: the structural rules decide
+            ctx.extra[f"judge_unavailable:{owner.name}.{name}"] = str(e)
+            _structural_dispatch(ctx, model, owner, name, fn, mem)
+            continue
         ctx.ob(f"D0/{owner.name}.{name}/dispatch-semantics", not wit, where(mem),
                f"{owner.name}.{name} interpreted on {n_cases} (hierarchy, handler "
                "subset, extra arguments) cases: own handler, else nearest "
